@@ -1,6 +1,6 @@
 """Shared analyses A3 (success continuation), A6 (effect tables), A7 (dispatch tables)."""
 import re
-from facts import callee, op_local, op_place, const_str, const_int, const_bytes, promoted_consts, AnchorMissing
+from facts import callee, op_local, op_place, op_is_const, const_str, const_int, const_bytes, promoted_consts, AnchorMissing
 import cfg
 
 ENGINE = "storage::engine::StorageEngine::"
@@ -146,7 +146,62 @@ def arm_region(b, tests, name):
             # join block or shared with non-test predecessors: follow trivial gotos? no: empty arm
             continue
         region |= cfg.dom_set(b, tgt)
+        region |= _flag_arm(b, tgt)
+        region |= _or_arm(b, tgt, tests)
     return region
+
+
+def _or_arm(b, tgt, tests):
+    """`if s == "A" || s == "B" { body }`: each test's true target is a trivial block that jumps to
+    the shared body; the body belongs to both names when all its entries come from string tests"""
+    preds = b.preds()
+    trues = {t["true"] for t in tests}
+    x = tgt
+    for _ in range(3):
+        t = b.term(x)
+        if t["k"] != "goto":
+            return set()
+        x = t["t"]
+        if len(preds[x]) > 1:
+            break
+    else:
+        return set()
+    # every entry of the landing block is (a trivial chain from) a string test's true target
+    for p in preds[x]:
+        y = p
+        for _ in range(3):
+            if y in trues:
+                break
+            if b.term(y)["k"] != "goto" or len(preds[y]) != 1:
+                return set()
+            y = preds[y][0]
+        if y not in trues:
+            return set()
+    return cfg.dom_set(b, x)
+
+
+def _flag_arm(b, tgt):
+    """`matches!(s, "A" | "B")` / `s == "A" || s == "B"` used as a condition: the true target only
+    stores `true` into a bool temporary and jumps to the switch on it; the arm is what that
+    switch's non-zero edge dominates"""
+    flag = None
+    for st in b.stmts(tgt):
+        if st["k"] == "=" and not st["l"]["p"] and b.locals[st["l"]["l"]] == "bool" and st["r"]["k"] == "use" and op_is_const(st["r"]["o"]) and st["r"]["o"]["c"].replace("const ", "") == "true":
+            flag = st["l"]["l"]
+    if flag is None:
+        return set()
+    x = tgt
+    for _ in range(3):
+        t = b.term(x)
+        if t["k"] == "goto":
+            x = t["t"]; continue
+        break
+    t = b.term(x)
+    if t["k"] == "switch" and op_local(t["d"]) is not None:
+        d = op_local(t["d"])
+        if d == flag or any(st["k"] == "=" and st["l"]["l"] == d and st["r"]["k"] == "use" and op_local(st["r"]["o"]) == flag for st in b.stmts(x)):
+            return cfg.edge_dom_set(b, x, t["o"])
+    return set()
 
 
 # ---------------------------------------------------------------------------------------
@@ -416,7 +471,13 @@ def direct_mutators(ctx, include_purge=False):
     counts the removal of an expired key (needed where expiry itself is the event: WATCH)."""
     def compute():
         out = {}
-        for fn, b in engine_bodies(ctx.prog).items():
+        bodies = dict(engine_bodies(ctx.prog))
+        # closures written inside engine functions (iterator adaptors driving a per-shard /
+        # per-element step) mutate on behalf of the function that contains them
+        for fn, b in ctx.prog.bodies.items():
+            if b.kind == "Closure" and fn.startswith(ENGINE) and "::tests::" not in fn:
+                bodies[fn] = b
+        for fn, b in bodies.items():
             sites = [(i, k, f) for (i, k, f) in data_mut_sites(b) if include_purge or not is_purge_block(b, i)]
             stores = [(i, st) for (i, st) in payload_stores(b) if include_purge or not is_purge_block(b, i)]
             if sites or stores:
